@@ -16,7 +16,7 @@ RULE = ("Line/Quadratic/Cubic segments of every class and paths of 2-5 of them a
         "extreme is attained strictly inside (0,1) of a curved segment; distinct by case hash.")
 ASSUMPTIONS = ["point() is the reference curve (C03)", "tolerance 1e-7*size + 1e-9*d (the critical points come from np.roots)"]
 CONFIGS = ['scipy']
-BUDGET = {'quick': 8000, 'thorough': 200000}
+BUDGET = {'quick': 16000, 'thorough': 300000}
 REQUIRED = ['q:far', 'q:near', 'q:on', 'q:curvature_centre', 'q:beyond_end', 'q:random', 'kind:L', 'kind:Q', 'kind:C', 'path', 'interior_min',
             'interior_max']
 
@@ -112,6 +112,8 @@ def check(case, ctx):
         if len({tuple(p) for p in sp[1:]}) < 2:
             ctx.discard('degenerate segment')
     size = gen.spec_size(specs)
+    if size < 1e-5 or any(gen.spec_size([sp]) < 1e-9 * size for sp in specs):
+        ctx.discard('segment far below the 1e-3 coordinate scale (squared distances underflow)')
     z = query_point(case, specs, size)
     if not (math.isfinite(z.real) and math.isfinite(z.imag)):
         ctx.discard('query point not finite')
